@@ -108,6 +108,7 @@ class Path:
         self.ret = ret
         self.kind = kind     # 'return' | 'diverge' | 'cut'
         self.trace = st.trace
+        self.outs = {k[0][1]: v for k, v in st.heap.items() if k[0][0] == "out" and k[1] == ()}
 
     # convenience ---------------------------------------------------------
     def calls(self, pred=None):
@@ -120,12 +121,16 @@ class Path:
         """Returned event word if the return value is a tracked vector, else None."""
         if self.ret and self.ret[0] == "vec":
             return self.ret[1]
+        if self.ret and self.ret[0] == "unit" and len(self.outs) == 1:
+            v = list(self.outs.values())[0]
+            if v[0] == "vec":
+                return v[1]
         return None
 
 
 class Explorer:
     def __init__(self, facts, inline_pred=None, loop_k=LOOP_K, closure_k=CLOSURE_K, max_paths=MAX_PATHS,
-                 opaque_hook=None, skip_macros=("trace!", "debug!", "info!", "warn!", "error!")):
+                 opaque_hook=None, stub_pred=None, skip_macros=("trace!", "debug!", "info!", "warn!", "error!")):
         self.F = facts
         self.inline_pred = inline_pred or default_inline
         self.loop_k = loop_k
@@ -133,6 +138,7 @@ class Explorer:
         self.max_paths = max_paths
         self.paths = []
         self.opaque_hook = opaque_hook
+        self.stub_pred = stub_pred
         self.skip_macros = skip_macros
         self.blockmaps = {}
         self.interned = {}
@@ -308,7 +314,7 @@ class Explorer:
     # ----------------------------------------------------------- operands
     def const_val(self, c):
         if "fn" in c:
-            return ("fn", c["fn"]["path"], c["fn"])
+            return ("fn", c["fn"]["path"])
         if "variant" in c:
             ty = c["ty"].split("<")[0]
             return AGG(ty, c["variant"])
@@ -820,6 +826,19 @@ class Explorer:
         if m is not None:
             return m
         callee = self.F.fns.get(path)
+        if callee is not None and self.stub_pred is not None and self.stub_pred(callee):
+            # summarised in-crate callee: its event word is a placeholder, every field may change
+            st.effects.append(("stub", path, tuple(args), site))
+            res = ("vec", (("sub", path),)) if "GenericEvent" in callee["locals"][0] else SYM(self.cap(("call", path, tuple(args))))
+            for i in self.mut_args(path, info, args):
+                if args[i][0] == "ref" and args[i][1] == ("self",) and not args[i][2]:
+                    for kk in [kk for kk in st.heap if kk[0] == ("self",)]:
+                        del st.heap[kk]
+                    st.heap[(("self",), ())] = SYM(self.cap(("after", path, site)))
+                else:
+                    self.havoc_ref(st, args[i], (path, i), site)
+            self.write_place(st, fr, dest, res, site)
+            return self.after_call(st, fr, target)
         if callee is not None and self.inline_pred(self, callee, info):
             self.stats["inlined"].add(path)
             return self.enter(st, stack, fr, callee, args, dest, target, None)
@@ -880,6 +899,8 @@ class Explorer:
         """Non-inlined call: record effect, havoc &mut arguments, bind a result term."""
         fn = fr.fn
         argterms = tuple(self.deref(st, a) if a[0] == "ref" else a for a in args)
+        if not argterms and info is not None and info.get("targs"):
+            argterms = (("targs", tuple(info["targs"])),)
         res = SYM(self.cap(("call", path, argterms)))
         if self.opaque_hook:
             r = self.opaque_hook(self, st, path, args, argterms, info)
@@ -1025,6 +1046,51 @@ class Explorer:
             if v[0] == "agg" and v[1] == "std::result::Result":
                 return ret(AGG("std::result::Result", "Err", (SYM(self.cap(("from", v[3][0] if v[3] else UNIT()))),)))
             return None
+        if p == "std::default::Default::default" and info.get("targs"):
+            ty = info["targs"][0]
+            if ty.startswith("std::option::Option<"):
+                return ret(AGG("std::option::Option", "None"))
+            if ty == "bool":
+                return ret(C(0, "bool"))
+            if ty in ("u8", "u16", "u32", "u64", "usize", "i32", "i64"):
+                return ret(C(0, ty))
+            return None
+        if p in ("std::option::Option::<T>::as_ref", "std::option::Option::<T>::as_mut"):
+            a0 = args[0]
+            OPT = "std::option::Option"
+            if a0[0] != "ref":
+                return None
+            v = self.read_loc(st, a0[1], a0[2])
+            some = AGG(OPT, "Some", (("ref", a0[1], a0[2] + (("dc", "Some"), ("f", 0, None))),))
+            if v[0] == "agg":
+                return ret(AGG(OPT, "None") if v[2] == "None" else some)
+            if v[0] == "sym":
+                dt = ("discr", v[1], OPT)
+                alts = []
+                for variant, val in (("Some", some), ("None", AGG(OPT, "None"))):
+                    s2 = st.clone()
+                    if self.constrain(s2, dt, "eq", self.variant_discr(OPT, variant)):
+                        k2 = self.clone_stack(stack)
+                        self.write_place(s2, k2[-1], dest, val, site)
+                        if target is None:
+                            continue
+                        k2[-1].bb = target
+                        alts.append((s2, k2))
+                if not alts:
+                    self.finish_path(st, None, "diverge")
+                    return "stop"
+                return ("fork", alts)
+            return None
+        if p == "std::option::Option::<std::option::Option<T>>::flatten":
+            v = args[0]
+            if v[0] == "agg":
+                if v[2] == "None":
+                    return ret(v)
+                inner = v[3][0]
+                if inner[0] == "agg":
+                    return ret(inner)
+                return ret(inner)
+            return None
         # ---- enum equality
         if p in ("std::cmp::PartialEq::eq", "std::cmp::PartialEq::ne"):
             a = self.deref(st, args[0])
@@ -1156,4 +1222,13 @@ def default_inline(ex, callee, info):
         return True
     if callee.get("kind") == "Closure":
         return True
+    # packet builders (derive_builder structs + hand-written build/validate): inlined so that
+    # `X::builder().field(..).build()` chains are decided by the same analysis
+    if BUILDER_RE.search(s):
+        return True
+    if callee.get("name") == "builder" and callee["path"].startswith("mqtt::packet::"):
+        return True
     return False
+
+
+BUILDER_RE = re.compile(r"^mqtt::packet::.*Builder(<.*>)?$")
